@@ -10,6 +10,8 @@ mod gate_eval;
 mod ram_tpl;
 #[path = "../../vc-synth/src/selftest.rs"]
 mod selftest;
+#[path = "../../vc-synth/src/shape_tpl.rs"]
+mod shape_tpl;
 #[path = "../../vc-synth/src/synth_case.rs"]
 mod synth_case;
 #[path = "../../vc-synth/src/synth_findings.rs"]
